@@ -273,20 +273,31 @@ def ref_select(levels, start, deep, roots, cx, stats):
 # building the real objects
 # =================================================================================================
 
-def build_node(Q, spec, parent_model):
+def build_node(Q, spec, parent_model, warm=None):
     cls = {"E": Q.Entry, "S": Q.Section, "D": Q.Directive}[spec["k"]]
     m = M(spec["n"], list(spec["a"]), None)
     m.parent = parent_model
-    kids = [build_node(Q, c, m) for c in spec["c"]]
+    kids = [build_node(Q, c, m, warm) for c in spec["c"]]
     m.children = kids
     attrs = tuple(spec["a"]) if spec.get("t", True) else list(spec["a"])
     m.real = cls(name=spec["n"], attrs=attrs, children=[k.real for k in kids])
+    if warm is not None:
+        # a sub-tree is read (queried, its root asked for) *before* it is attached to its parent, the way a
+        # parsed include file is queried before a combiner grafts it into the main document; reads are pure,
+        # so the later query over the finished document must not notice
+        warm["n"] += 1
+        if warm["n"] % warm["every"] == 0:
+            _ = m.real.root
+            for k in m.real.children:
+                _ = k.root
+            m.real.select(None, deep=True, roots=True)
+            warm["done"] += 1
     return m
 
 
-def build_doc(Q, tops):
+def build_doc(Q, tops, warm=None):
     dm = M(None, [], None)
-    dm.children = [build_node(Q, t, dm) for t in tops]
+    dm.children = [build_node(Q, t, dm, warm) for t in tops]
     dm.real = Q.Entry(children=[k.real for k in dm.children])
     return dm
 
@@ -376,7 +387,8 @@ def check_query(case):
         real = Q.from_dict(case["dict"])
         docs = [model_of(real)]
     else:
-        docs = [build_doc(Q, d) for d in case["docs"]]
+        warm = {"n": 0, "every": int(case["warm"]), "done": 0} if case.get("warm") else None
+        docs = [build_doc(Q, d, warm) for d in case["docs"]]
     levels = case["levels"]
     via = case["via"]
     deep = bool(case["deep"])
@@ -403,6 +415,14 @@ def check_query(case):
         def __init__(self, d):
             self.doc = d
 
+    if case.get("prequery"):
+        # the same document answered other questions before (same levels with the options flipped, and the
+        # plain descendants listing): earlier look-ups must not change what a later query returns
+        doc.real.select(*queries, deep=not deep, roots=not roots)
+        doc.real.find(None, roots=True)
+        for d in docs:
+            for c in d.real.children:
+                _ = c.root
     if via in ("getitem", "result-getitem", "component-getitem"):
         deep = roots = False
         cur = {"getitem": doc.real, "result-getitem": Q.Result(children=[d.real for d in docs]),
@@ -436,6 +456,10 @@ def check_query(case):
     exp_b = ref_select(levels, start, deep, roots, cxb, {"rejected": False})
     labels = ["via=" + via, "levels=%d" % len(levels), "deep=%d" % deep, "roots=%d" % roots,
               "build=" + ("from_dict" if case.get("dict") is not None else "ctor")]
+    if case.get("prequery"):
+        labels.append("queried-before")
+    if case.get("warm") and case.get("dict") is None and warm["done"]:
+        labels.append("subtree-read-before-attached")
     if [id(x) for x in exp_a] != [id(x) for x in exp_b]:
         return {"nontrivial": False, "labels": labels + ["ambiguous-skip"]}
 
@@ -661,7 +685,8 @@ def _query_case(draw):
     use_dict = draw(st.sampled_from([False] * 7 + [True]))
     docs = None if use_dict else draw(_docs)
     case = {"levels": draw(st.lists(_level, min_size=1, max_size=3)), "via": draw(st.sampled_from(_VIAS)),
-            "deep": draw(st.booleans()), "roots": draw(st.booleans()), "pick": draw(st.integers(0, 7))}
+            "deep": draw(st.booleans()), "roots": draw(st.booleans()), "pick": draw(st.integers(0, 7)),
+            "warm": draw(st.sampled_from([0, 0, 1, 2, 3])), "prequery": draw(st.sampled_from([False, False, True]))}
     if use_dict:
         case["dict"] = draw(_dict)
         case["docs"] = None
